@@ -456,7 +456,7 @@ def run(ctx) -> None:
                 await run_history(ctx, idx, plan, after)
         ctx.exhaustive_parts[f"all outcome sequences of length <= {ctx.pick(2, 3)} x (then ok | then refused forever)"] = True
         rng = ctx.rng("C11.random")
-        for k in range(ctx.pick(3000, 30000) // ctx.nshards):
+        for k in range(ctx.pick(3000, 150000) // ctx.nshards):
             n = rng.randint(3, 5)
             plan = [rng.choice(FAILS) for _ in range(n)]
             await run_history(ctx, 10_000_000 + k * ctx.nshards + ctx.shard, plan, rng.choice(["ok", "ok", "refuse"]))
